@@ -62,6 +62,11 @@ Sweep(ops, jac) ==
 PlanOf(p) ==
   CASE p = "C01" -> ElementCells({"compose", "inverse", "act", "transform"}, ThetaElem, LinAll, ThetaElem, LinAll, 0)
                     \cup { Cell("identity", key, "-", "-", "-", "-", "-", "-", 0) : key \in Range(GroupsQ) }
+                    \* operands that are valid but not exactly normalised (inside the acceptance threshold): the product of two such
+                    \* operands leaves the threshold, which is what sends compose through its renormalisation branch
+                    \cup { Cell(op, key, ThetaElem[i], Cyc(<<"zero", "1", "1e3">>, i + h), <<"posdn", "negdn">>[h], Cyc(Dirs, i + h),
+                                 Cyc(ThetaElem, i + 3 * h), "1", 0) :
+                             op \in {"compose", "inverse", "act"}, key \in Range(GroupsQ), i \in 1..Len(ThetaElem), h \in 1..2 }
     [] p = "C02" -> TangentCells({"exp"}, ThetaAll, LinAll, 0) \cup Sweep({"exp"}, 0)
     [] p = "C03" -> ElementCells({"log", "logtwin"}, ThetaElem, LinAll, <<"generic">>, <<"1">>, 0)
                     \cup TangentCells({"explog"}, ThetaAll, LinAll, 0)
